@@ -129,6 +129,7 @@ def runCase (hdr : List String) (body : List (List String)) : List String := Id.
   if hasB then
     if s.bDestroyed then lines := lines.push "poolB destroyed"
     else lines := lines.push s!"poolB exit={b01 s.bExit} threads={if s.bHasThread then 1 else 0}"
+  if !stuck then lines := lines.push "closures live=0"
   return (lines.toList ++ ["end"])
 
 partial def loop (lines : Array String) (i : Nat) (hdr : List String) (body : List (List String)) : IO Unit := do
